@@ -349,6 +349,42 @@ def apply_prep(tree, prep):
         raise ValueError(prep)
 
 
+HIST_OPS = ["remove", "remove_keep", "remove_children", "move", "move_top", "add", "filter"]
+
+
+def apply_hist(tree, hist):
+    """a mutation history applied before the tree is serialised; node arguments are pre-order indices into the
+    tree as it is at that moment; an operation the library refuses (or that does not apply) is skipped"""
+    for op in hist or []:
+        if op[0] not in HIST_OPS and op[0] != "clear_readd":
+            raise ValueError(op)
+        nodes = B.all_nodes(tree._root)
+        try:
+            if op[0] == "clear_readd":
+                tree.clear()
+                tree.add(op[1])
+                continue
+            if not nodes:
+                continue
+            n = nodes[op[1] % len(nodes)]
+            if op[0] == "remove":
+                n.remove()
+            elif op[0] == "remove_keep":
+                n.remove(keep_children=True)
+            elif op[0] == "remove_children":
+                n.remove_children()
+            elif op[0] == "move":
+                n.move_to(nodes[op[2] % len(nodes)])
+            elif op[0] == "move_top":
+                n.move_to(tree)
+            elif op[0] == "add":
+                n.add(op[2])
+            elif op[0] == "filter":   # in place: drop the nodes whose name ends in op[1]
+                tree.filter(lambda x: not x.name.endswith(str(op[1])))
+        except Exception:  # noqa: BLE001  (refused: uniqueness, move into own branch, ...)
+            pass
+
+
 class Prop:
     id = "C14"
     coq_prop = "Properties/C14.v"
@@ -362,7 +398,8 @@ class Prop:
             "value-equal objects, tuples, ints, dataclasses; identity-hashed objects; '7' next to 7) x the 6 serialisation mappers (none / "
             "set data in place / wrap / new dict keeping or dropping data_id / extra entry read back by the decoder) with the inverse deserialisation mapper (at N nodes: 1 (quick) or 2 "
             "of the 6 mappers per tree); trees under a calc_data_id hook; typed trees; emptied trees (clear, remove of the last top "
-            "node); seeded random trees (5..18 nodes quick, 5..30 thorough); 47 hand-written + 150 (thorough 800) random dict lists (missing/unhashable data, bad data_id / node_id / children entries, non-dict items); Node.from_dict "
+            "node); trees reached through mutation histories (remove, remove(keep_children), remove_children, move_to, filter, add, "
+            "clear + re-add: every single operation on every node of every forest <= 3 nodes, pairs on 4 nodes, random histories); seeded random trees (5..18 nodes quick, 5..30 thorough); 47 hand-written + 150 (thorough 800) random dict lists (missing/unhashable data, bad data_id / node_id / children entries, non-dict items); Node.from_dict "
             "into every node of every forest <= 3 (thorough 4) nodes x 3 calc_data_id hooks x 6 item lists.  Every dump goes through "
             "json.dumps/json.loads before from_dict.  A case is one tree (or one dict list); distinct = distinct desc; non-trivial = >= 3 nodes")
     exhaustive_note = ("all shapes <= 3 nodes x all labelings (2 strings x 5 data_id choices; quick: 2 choices at 3 nodes); "
@@ -477,6 +514,52 @@ class Prop:
                 d = dict(univ=["s:a", "s:b", "s:c"], nodes=B.shape_to_nodes(shape, lambda i, dp, s: (i, None, None)), sm="none", prep=prep)
                 if ok(d):
                     yield d
+        # (3b) trees reached through a mutation history (remove, remove(keep_children), remove_children, move_to,
+        #      clear + re-add, in-place filter, add) before they are serialised
+        def hist_desc(shape, n, hist, sm="none"):
+            return dict(univ=[f"s:n{i}" for i in range(n)] + ["s:x"], sm=sm, hist=hist,
+                        nodes=B.shape_to_nodes(shape, lambda i, dp, s: (i, None, None if i % 2 else f"h{i}")))
+
+        for n in (1, 2, 3):
+            for shape in H.forests(n):
+                for k in range(n):
+                    for op in ("remove", "remove_keep", "remove_children", "move_top"):
+                        d = hist_desc(shape, n, [[op, k]])
+                        if ok(d):
+                            yield d
+                    for j in range(n):
+                        if j != k:
+                            d = hist_desc(shape, n, [["move", k, j]])
+                            if ok(d):
+                                yield d
+                d = hist_desc(shape, n, [["filter", n - 1]])
+                if ok(d):
+                    yield d
+        for shape in H.forests(4):
+            for k in range(4):
+                for op in ("remove_keep", "remove"):
+                    d = hist_desc(shape, 4, [[op, k], ["remove_keep", k]], sm="set" if k % 2 else "none")
+                    if ok(d):
+                        yield d
+        for _ in range(40 if tier == "quick" else 600):
+            n = rng.randint(2, 7)
+            shape = H.random_shape(rng, n, deep=rng.choice([0.3, 0.7]))
+            hist = []
+            for _i in range(rng.randint(1, 5)):
+                op = rng.choice(HIST_OPS)
+                if op in ("move",):
+                    hist.append([op, rng.randrange(8), rng.randrange(8)])
+                elif op == "add":
+                    hist.append([op, rng.randrange(8), "x"])
+                elif op == "filter":
+                    hist.append([op, rng.randrange(n)])
+                else:
+                    hist.append([op, rng.randrange(8)])
+            if rng.random() < 0.1:
+                hist.insert(rng.randrange(len(hist) + 1), ["clear_readd", "again"])
+            d = hist_desc(shape, n, hist, sm=rng.choice(["none", "none", "set", "extra"]))
+            if ok(d):
+                yield d
         # (4) random
         nrand = 60 if tier == "quick" else 400
         for _ in range(nrand):
@@ -550,6 +633,9 @@ class Prop:
             yield dict(desc, nodes=nodes)
         if desc.get("sm") != "none":
             yield dict(desc, sm="none")
+        h = desc.get("hist") or []
+        for i in range(len(h)):
+            yield dict(desc, hist=h[:i] + h[i + 1:])
 
     # ------------------------------------------------------------------
     def run(self, desc) -> Case:
@@ -559,6 +645,7 @@ class Prop:
             return self.run_into(desc)
         tree, U = build14(desc)
         apply_prep(tree, desc.get("prep"))
+        apply_hist(tree, desc.get("hist"))
         kind = desc.get("sm", "none")
         nodes = B.all_nodes(tree._root)
         ser, deser = make_ser(kind, U), make_deser(kind, U)
@@ -568,7 +655,7 @@ class Prop:
         dump = call(lambda: tree.to_dict_list(mapper=ser))
         subs = nodes if len(nodes) <= 2 else [nodes[len(nodes) // 2], nodes[-1]]
         sub_dumps = [call(lambda n=n: n.to_dict(mapper=ser)) for n in subs]
-        stats = dict(nodes=len(nodes), depth=B.nodes_depth(desc["nodes"]), mapper=kind, prep=str(desc.get("prep")),
+        stats = dict(nodes=len(nodes), depth=B.nodes_depth(desc["nodes"]), mapper=kind, prep=str(desc.get("prep")), hist=len(desc.get("hist") or []),
                      custom_ids=sum(1 for n in nodes if is_custom(n)),
                      unhashable=sum(1 for n in nodes if safe_hash(n._data) == -1),
                      clones=sum(1 for n in nodes if len(tree._nodes_by_data_id.get(n._data_id, [])) > 1))
